@@ -94,12 +94,17 @@ CLAIMED = {
     "C08": {
         "text": "Theorems: (a) a replacer whose lookup takes the highest-priority matching key, priorities decreasing in argument order, equals the "
                 "first-match-in-order specification for every table (overlapping, prefix-sharing, repeated keys) and restores a name standing at the current "
-                "position; (c) the reflected-parameter propagation of recordReflection is refuted to be order independent (F10, model reproduces the defect with "
-                "two visiting orders). Tied by compiling reflect_abi_code.go verbatim against strings.NewReplacer and the Coq specification, and by a reflection "
-                "program (two packages, all flow paths of the quantifier, json, FieldByName, methods) compared with the regular build; five limitations of the "
-                "pinned tree are recorded as known findings. Partial: the trie data structure and the type-closure recursion are checked, not proved.",
+                "position; (b) the walk that records which names a reflected type keeps (recursivelyRecordUsedForReflect, Model/TypeClosure.v) records, for every "
+                "table of declared types and every root type, exactly the declared types and struct fields reachable from the root through fields, pointers, "
+                "slices, arrays, channels, map keys and elements, func parameters and results, aliases and declared types (completeness and soundness, with the "
+                "recorded-already cut-off that ends the recursion); (c) the reflected-parameter propagation of recordReflection is refuted to be order independent "
+                "(F10, model reproduces the defect with two visiting orders). Tied by compiling reflect_abi_code.go verbatim against strings.NewReplacer and the "
+                "Coq specification; by running the real walk (injected oracle) on generated type declarations and evaluating the model's walk in Coq on the type "
+                "graph the oracle dumps independently through go/types; and by a reflection program (two packages, all flow paths of the quantifier, map keys, "
+                "func types, json, FieldByName, methods) compared with the regular build; limitations of the pinned tree are recorded as known findings, one "
+                "(map keys and func signatures were not walked) was repaired. Partial: the trie data structure is checked, not proved.",
         "note": "Trusted: Coq kernel; strings.NewReplacer as reference; harness main file; real builds. No axioms.",
-        "technique": "Coq proof of the replacer's priority scheme + refutation of order independence + in-Coq correspondence with the verbatim replacer source + reflection differential",
+        "technique": "Coq proof of the replacer's priority scheme and of completeness/soundness of the reflection type walk + refutation of order independence + in-Coq correspondence with the verbatim replacer source and with the real walk on generated types + reflection differential",
     },
     "C04": {
         "text": "Theorems: text without any table key passes through byte for byte and is reported unmodified (any line endings); a key at the current position "
